@@ -40,6 +40,7 @@ type Header struct {
 	GCEvery   int        `json:"gcEvery"`  // force GC every n ops (0 = never)
 	Twin      string     `json:"twin"`     // "" | "reset" | "load": fork a twin world at Reset / Dump
 	Dispatch  []LSpec    `json:"dispatch"` // sub-listeners of a listener.Dispatch (instead of the single listener)
+	Generic   bool       `json:"generic"`  // register the static component types of the generic API adapters (ids 0..12)
 	Ops       []Op       `json:"ops"`
 }
 
@@ -76,6 +77,7 @@ type Op struct {
 	R      int    `json:"r"`
 	W      int    `json:"w"`           // world index (twin schedules)
 	L      *LSpec `json:"l,omitempty"` // AddListener
+	Ar     int    `json:"ar,omitempty"` // arity of the generic Map / Filter
 }
 
 type openQuery struct {
@@ -122,6 +124,8 @@ type World struct {
 	lst      *recListener
 	disp     *listener.Dispatch
 	subs     []LSpec
+	gfs      []*gfState
+	posExtra func(q *ecs.Query) map[string]interface{}
 	valSeq   int
 	lastDump *ecs.EntityDump
 }
@@ -262,6 +266,18 @@ func NewWorld(h Header) *World {
 	cfg := ecs.NewConfig().WithCapacityIncrement(h.CapInc).WithRelationCapacityIncrement(h.RelCapInc)
 	w := ecs.NewWorld(cfg)
 	x := &World{h: h, w: &w, comps: map[int]*compInfo{}, resVals: map[int]interface{}{}}
+	if h.Generic {
+		ids := registerGC(&w)
+		for i, id := range ids {
+			if idNum(id) != i {
+				panic("generic component types not registered at ids 0..12")
+			}
+			k := gcKinds[i]
+			x.comps[i] = &compInfo{id: id, num: i, kind: k, tp: gcComps[i], isRel: kindIsRel(k), sized: kindSized(k)}
+			x.compNums = append(x.compNums, i)
+		}
+		h.Comps = nil
+	}
 	specs := append([]CompSpec{}, h.Comps...)
 	sort.Slice(specs, func(i, j int) bool { return specs[i].ID < specs[j].ID })
 	next := 0
